@@ -4,6 +4,7 @@ import (
 	"fmt"
 	"go/ast"
 	"go/types"
+	"strings"
 
 	"golang.org/x/tools/go/ssa"
 )
@@ -420,5 +421,214 @@ func ruleLexKeywordLookup(c *Ctx, r *R) {
 	}
 	if n == 0 {
 		r.undecided("unresolved:lookup", "-", "UNRESOLVED: no call of token.IsKeyword in package parser")
+	}
+}
+
+func init() {
+	register(&Rule{ID: "FORIN-reference", Props: []string{"C01"}, Min: 1,
+		Doc: "P (ES5 12.6.4 steps 6.b-c / 7.b-c: for every property name the LeftHandSideExpression - or the declared variable - is evaluated again and the name is put through the reference that evaluation yields): in the for-in evaluator the reference handed to putValue inside the enumeration callback is computed inside that callback, per iteration; it is not a value captured from the enclosing function, where it would be resolved once. The body can change what the expression designates (`for (o[i++] in src)`, `with (scope) for (var k in src) { scope.k = ... }`)",
+		Run: ruleForInReference})
+}
+
+func ruleForInReference(c *Ctx, r *R) {
+	var fn *ssa.Function
+	for _, f := range c.AllSrcFuncs("") {
+		if f.Parent() != nil {
+			continue
+		}
+		for _, p := range f.Params {
+			if n := derefNamed(p.Type()); n != nil && n.Obj().Name() == "nodeForInStatement" && f.Signature.Recv() != nil && typeIs(f.Signature.Recv().Type(), ottoPath, "runtime") {
+				fn = f
+			}
+		}
+	}
+	if fn == nil {
+		r.undecided("unresolved:for-in", "-", "UNRESOLVED: evaluator of nodeForInStatement not found")
+		return
+	}
+	n := 0
+	var lits []*ssa.Function
+	var collect func(f *ssa.Function)
+	collect = func(f *ssa.Function) {
+		for _, a := range f.AnonFuncs {
+			lits = append(lits, a)
+			collect(a)
+		}
+	}
+	collect(fn)
+	for _, lit := range append([]*ssa.Function{fn}, lits...) {
+		for _, b := range lit.Blocks {
+			for _, ins := range b.Instrs {
+				call, ok := ins.(*ssa.Call)
+				if !ok {
+					continue
+				}
+				cal := call.Call.StaticCallee()
+				if cal == nil || cal.Name() != "putValue" || len(call.Call.Args) < 3 {
+					continue
+				}
+				n++
+				key := fmt.Sprintf("%s:putValue#%d", ssaFuncName(lit), n)
+				site := c.Pos(instrPos(call))
+				if lit == fn {
+					r.bad(key, site, "the for-in evaluator puts the property name outside the enumeration callback: the reference is not evaluated per property (ES5 12.6.4 step 6.b)")
+					continue
+				}
+				// the reference operand: no path of its computation leads to a variable captured from outside
+				captured := ""
+				seen := map[ssa.Value]bool{}
+				var walk func(v ssa.Value, d int)
+				walk = func(v ssa.Value, d int) {
+					if d > 8 || seen[v] || captured != "" {
+						return
+					}
+					seen[v] = true
+					switch x := v.(type) {
+					case *ssa.FreeVar:
+						// the node and the runtime are captured legitimately: only a captured *reference* (or Value holding
+						// one) is a result computed before the loop
+						t := typeStr(x.Type())
+						if strings.Contains(t, "referencer") || t == "*Value" || t == "Value" {
+							captured = x.Name()
+						}
+					case *ssa.Phi:
+						for _, e := range x.Edges {
+							walk(e, d+1)
+						}
+					case *ssa.UnOp:
+						walk(x.X, d+1)
+					case *ssa.Call:
+						// the result of a call made here is computed here; only conversions of a value are followed
+						if cc := x.Call.StaticCallee(); cc != nil && (cc.Name() == "reference" || cc.Name() == "toValue") {
+							for _, a := range x.Call.Args {
+								walk(a, d+1)
+							}
+						}
+					case *ssa.MakeInterface:
+						walk(x.X, d+1)
+					case *ssa.ChangeInterface:
+						walk(x.X, d+1)
+					case *ssa.TypeAssert:
+						walk(x.X, d+1)
+					case *ssa.Alloc:
+						if x.Referrers() != nil {
+							for _, ref := range *x.Referrers() {
+								if st, ok := ref.(*ssa.Store); ok && st.Addr == ssa.Value(x) {
+									walk(st.Val, d+1)
+								}
+							}
+						}
+					}
+				}
+				walk(call.Call.Args[1], 0)
+				r.check(captured == "", key, site, "the reference the name is put through is computed inside the enumeration callback, for every property",
+					fmt.Sprintf("the for-in evaluator puts the property name through a reference captured from outside the enumeration callback (%s): it was resolved once, before the loop, but ES5 12.6.4 step 6.b evaluates the left-hand side for every property - `with (scope) { for (var k in {a:1,b:2}) { seen.push(k); scope.k = 'shadow' } }` must see a, b", captured))
+			}
+		}
+	}
+	if n == 0 {
+		r.undecided("unresolved:putValue", c.Pos(fn.Pos()), "UNRESOLVED: no putValue call in the for-in evaluator")
+	}
+}
+
+func init() {
+	register(&Rule{ID: "OWN-rawread", Props: []string{"C07"}, Min: 2,
+		Doc: "O (ES5 8.12.1 / 8.12.2 and the exotic [[GetOwnProperty]] of String objects 15.5.5.2, arguments objects 10.6 and the Go-backed classes): the raw reader of an object's property table (the method of *object that returns (property, bool) from the table) is what the *ordinary* [[GetOwnProperty]] is built on; an object of another class answers [[GetOwnProperty]] itself. So the raw reader is only ever applied to the object a class function was handed (its own *object parameter) - never to an object it reached by following a prototype link or any other field, whose class may be a different one. A prototype walk that reads the tables directly loses the index properties of a String prototype and the mapped arguments (`Object.create(new String('abc'))[1]`)",
+		Run: ruleOwnRawRead})
+}
+
+func ruleOwnRawRead(c *Ctx, r *R) {
+	// the raw reader: method of *object with results (property, bool)
+	var reader *ssa.Function
+	for _, fn := range c.AllSrcFuncs("") {
+		if fn.Signature.Recv() == nil || typeStr(fn.Signature.Recv().Type()) != "*object" || fn.Signature.Results().Len() != 2 {
+			continue
+		}
+		if typeStr(fn.Signature.Results().At(0).Type()) == "property" && typeStr(fn.Signature.Results().At(1).Type()) == "bool" && fn.Signature.Params().Len() == 1 {
+			if reader != nil {
+				r.undecided("unresolved:reader", "-", "UNRESOLVED: more than one method of *object returns (property, bool)")
+				return
+			}
+			reader = fn
+		}
+	}
+	if reader == nil {
+		r.undecided("unresolved:reader", "-", "UNRESOLVED: no method of *object with results (property, bool) (the raw reader of the property table)")
+		return
+	}
+	n := 0
+	for _, fn := range c.AllSrcFuncs("") {
+		ord := 0
+		for _, b := range fn.Blocks {
+			for _, ins := range b.Instrs {
+				call, ok := ins.(*ssa.Call)
+				if !ok || call.Call.StaticCallee() != reader || len(call.Call.Args) == 0 {
+					continue
+				}
+				n++
+				ord++
+				key := fmt.Sprintf("%s:%s#%d", ssaFuncName(fn), reader.Name(), ord)
+				_, isParam := normCell(call.Call.Args[0]).(*ssa.Parameter) // (a parameter a closure captures lives in a cell)
+				r.check(isParam, key, c.Pos(instrPos(call)), "the raw table is read of the object the function was handed",
+					fmt.Sprintf("%s reads the raw property table (%s) of an object it was not handed - one it reached through a field such as the prototype link: that object's class may answer [[GetOwnProperty]] itself (String index properties, mapped arguments, Go-backed objects), and a table read misses those - `Object.create(new String('abc'))[1]` must be 'b', `1 in Object.create(new String('abc'))` true (ES5 8.12.2 calls the prototype's [[GetProperty]])", ssaFuncName(fn), reader.Name()))
+			}
+		}
+	}
+	r.note("raw_reads", n)
+}
+
+func init() {
+	register(&Rule{ID: "SPEC-hasinstance-order", Props: []string{"C05"}, Min: 1,
+		Doc: "P (ES5 15.3.5.3 [[HasInstance]](V): step 1 `If V is not an object, return false` precedes step 2, the [[Get]] of `prototype`, and step 3, the TypeError for a prototype that is not an object): in the method that implements it (a method of *object taking a Value and returning bool that reads the property `prototype`), the [[Get]] of `prototype` is dominated by the test of the argument for being an object. `1 instanceof Math.max` is false, not a TypeError",
+		Run: ruleHasInstanceOrder})
+}
+
+func ruleHasInstanceOrder(c *Ctx, r *R) {
+	n := 0
+	for _, fn := range c.AllSrcFuncs("") {
+		if fn.Signature.Recv() == nil || typeStr(fn.Signature.Recv().Type()) != "*object" || fn.Signature.Params().Len() != 1 || fn.Signature.Results().Len() != 1 {
+			continue
+		}
+		if typeStr(fn.Signature.Params().At(0).Type()) != "Value" || typeStr(fn.Signature.Results().At(0).Type()) != "bool" {
+			continue
+		}
+		var getProto *ssa.Call
+		for _, b := range fn.Blocks {
+			for _, ins := range b.Instrs {
+				if call, ok := ins.(*ssa.Call); ok {
+					if cal := call.Call.StaticCallee(); cal != nil && cal.Name() == "get" && len(call.Call.Args) == 2 {
+						if k, ok := call.Call.Args[1].(*ssa.Const); ok && k.Value != nil && k.Value.ExactString() == `"prototype"` {
+							getProto = call
+						}
+					}
+				}
+			}
+		}
+		if getProto == nil {
+			continue
+		}
+		n++
+		arg := fn.Params[len(fn.Params)-1]
+		tested := false
+		for _, b := range fn.Blocks {
+			iff, ok := b.Instrs[len(b.Instrs)-1].(*ssa.If)
+			if !ok || !b.Dominates(getProto.Block()) || b == getProto.Block() {
+				continue
+			}
+			cond, _ := normBool(iff.Cond)
+			if call, ok := cond.(*ssa.Call); ok {
+				if cal := call.Call.StaticCallee(); cal != nil && (cal.Name() == "IsObject" || cal.Name() == "isObject") && len(call.Call.Args) == 1 && sameSSA(call.Call.Args[0], arg, 0) {
+					// the [[Get]] is reached only on one side
+					if !(reaches(b.Succs[0], getProto.Block(), map[*ssa.BasicBlock]bool{b: true}) && reaches(b.Succs[1], getProto.Block(), map[*ssa.BasicBlock]bool{b: true})) {
+						tested = true
+					}
+				}
+			}
+		}
+		r.check(tested, ssaFuncName(fn), c.Pos(instrPos(getProto)), "the argument is tested for being an object before `prototype` is read",
+			fmt.Sprintf("%s reads the `prototype` property (and raises the TypeError for one that is not an object) before it has tested the left operand for being an object: ES5 15.3.5.3 step 1 returns false first - `1 instanceof Math.max` (a function without a prototype) must be false, not a TypeError", ssaFuncName(fn)))
+	}
+	if n == 0 {
+		r.undecided("unresolved:hasInstance", "-", "UNRESOLVED: no method of *object (Value) bool reads the property `prototype`")
 	}
 }
